@@ -1409,7 +1409,9 @@ def main(argv):
 
     def proofs():
         t0 = time.time()
-        ck.run_proofs("Props/C20.v", PROOF_FILES, extra_targets=["Extract/Main_c20.vo"])
+        # Props/C20_late.v: sortBlocks / flattenBlocks / optimiser / assembly never fail on a routine compile_one accepts (any control flow);
+        # no Crash* outcome of compile_model for programs without deferred expressions
+        ck.run_proofs("Props/C20.v", PROOF_FILES + ['Proofs/LatePassTotalReach.v', 'Proofs/LatePassTotalNorm.v', 'Proofs/LatePassTotal.v', 'Proofs/LatePassTotalExamples.v', 'Proofs/LatePassTotalProgram.v', 'Proofs/LatePassTotalOpt.v', 'Proofs/LatePassTotalAccept.v'], extra_targets=["Extract/Main_c20.vo"], extra_props=["Props/C20_late.v"])
         tree_ok = True
         if os.path.exists(os.path.join(COQ, TREE_PROPS)):
             deps = tree_prop_deps()
